@@ -313,7 +313,7 @@ def _chunk(args):
           b.remove(j)
           im.append(i), iw.append(j)
         extra_w += b
-      zero_rows = [j for j in extra_w if not rg["J"][j].any()]
+      zero_rows = [j for j in extra_w if np.abs(rg["J"][j]).max() < 1e-6]
       if zero_rows:  # MuJoCo leaves out the row of an edge between two pinned vertices; MJWarp emits an all-zero row for it
         cmp.bad.append(("ne@zero_jacobian_equality", float(len(zero_rows)), 0.0))
         cmp.nfields += 1
@@ -326,8 +326,8 @@ def _chunk(args):
       if zero_rows:
         comparable_dyn = comparable_dyn  # an all-zero row carries no force: the dynamics stay comparable
       # a contact no dof can move (vertex of an interpolated flex on a pinned node, against a static geom): MuJoCo lists it without rows
-      zc = [i for i in range(got.ne, got.nefc) if not rg["J"][i].any()]
-      if zc and not any(not rr["J"][i].any() for i in range(mjd.ne, mjd.nefc)):
+      zc = [i for i in range(got.ne, got.nefc) if np.abs(rg["J"][i]).max() < 1e-6]
+      if zc and not any(np.abs(rr["J"][i]).max() < 1e-6 for i in range(mjd.ne, mjd.nefc)):
         # ... unless it is a contact between two different flexes (world 0, where efc_id is the contact's index): both sides can move
         zff = [i for i in zc if w == 0 and 0 <= int(rg["id"][i]) < got.ncon and got.contact.geom[int(rg["id"][i])].max() < 0
                and got.contact.flex[int(rg["id"][i])][0] != got.contact.flex[int(rg["id"][i])][1]]
